@@ -12,8 +12,8 @@ error); proxy and upstream call the same `kafsql.Parse`, so it is ONE parameter 
 `proxyView`) and upstream side (`up…`, `upstreamView`) are modelled SEPARATELY, each from its own
 source file; `KafVerif.C37.views_agree` proves that they agree as coded, and the `…G` variants
 carry the two places where they could drift apart (the upstream's entry normalisation, the
-lowering of the proxy's catalog test) as parameters for the witness theorems.  `path.Match` is modelled for patterns made of literal
-bytes, `*` and `?` (`globMatch`); `[`-classes and escapes are outside the modelled domain.
+lowering of the proxy's catalog test) as parameters for the witness theorems.  `path.Match` is ported loop by loop (`pathMatch`: chunks, `*`, `?`, `[`-classes with ranges, negation and
+escapes, `ErrBadPattern`).
 
 Definitions without suffix are the code after `fixes/C37-*.patch`; `…Old` is the code before.
 -/
@@ -68,7 +68,149 @@ def globF : Nat → Bytes → Bytes → Bool
   | f + 1, c :: p, d :: t => c == d && globF f p t
   | _ + 1, _ :: _, [] => false
 
-def globMatch (pattern name : Bytes) : Bool := globF (pattern.length + name.length + 1) pattern name
+/-- the earlier model of `path.Match` (literals, `*`, `?` only, full backtracking); kept for
+`KafVerif.C37.globSimple_*` comparisons -/
+def globSimple (pattern name : Bytes) : Bool := globF (pattern.length + name.length + 1) pattern name
+
+/-! ### `path.Match` (Go 1.2x `path/match.go`), ported loop by loop
+
+`Option` = `ErrBadPattern` (`none`).  Bytes as in Go strings; runes are decoded where Go decodes
+them (`[`-classes on both sides, `?` on the name side). -/
+
+/-- `utf8.DecodeRuneInString`: (rune, width); ill-formed or truncated → (U+FFFD, 1); empty → (U+FFFD, 0) -/
+def decodeRune (s : Bytes) : Nat × Nat :=
+  match s, runeLen s with
+  | b0 :: _, 1 => (if b0 < 0x80 then b0.toNat else 0xFFFD, 1)
+  | b0 :: b1 :: _, 2 => ((b0.toNat % 32) * 64 + b1.toNat % 64, 2)
+  | b0 :: b1 :: b2 :: _, 3 => ((b0.toNat % 16) * 4096 + (b1.toNat % 64) * 64 + b2.toNat % 64, 3)
+  | b0 :: b1 :: b2 :: b3 :: _, 4 =>
+    ((b0.toNat % 8) * 262144 + (b1.toNat % 64) * 4096 + (b2.toNat % 64) * 64 + b3.toNat % 64, 4)
+  | _, n => (0xFFFD, n)
+
+/-- the leading `*`s of `scanChunk` -/
+def dropStars : Bytes → Bool × Bytes
+  | 42 :: p => (true, (dropStars p).2)
+  | p => (false, p)
+
+/-- the `Scan:` loop of `scanChunk`: length of the chunk (up to the first `*` outside a class) -/
+def scanLen : Bool → Bytes → Nat
+  | _, [] => 0
+  | _, [92] => 1
+  | inr, 92 :: _ :: r => 2 + scanLen inr r
+  | _, 91 :: r => 1 + scanLen true r
+  | _, 93 :: r => 1 + scanLen false r
+  | inr, 42 :: r => if inr then 1 + scanLen inr r else 0
+  | inr, _ :: r => 1 + scanLen inr r
+
+/-- `getEsc` -/
+def getEsc (chunk : Bytes) : Option (Nat × Bytes) :=
+  match chunk with
+  | [] => none
+  | c :: rest =>
+    if c == 45 || c == 93 then none
+    else
+      let ch := if c == 92 then rest else chunk
+      if ch.isEmpty then none
+      else
+        let (r, n) := decodeRune ch
+        let nchunk := ch.drop n
+        if (r == 0xFFFD && n == 1) || nchunk.isEmpty then none else some (r, nchunk)
+
+/-- the `for` loop over the ranges of one character class; result: (matched, chunk after `]`) -/
+def classLoop : Nat → Bytes → Nat → Nat → Bool → Option (Bool × Bytes)
+  | 0, _, _, _, _ => none
+  | f + 1, chunk, r, nrange, m =>
+    match chunk, decide (nrange > 0) with
+    | 93 :: rest, true => some (m, rest)
+    | _, _ =>
+      match getEsc chunk with
+      | none => none
+      | some (lo, c1) =>
+        match c1 with
+        | 45 :: c2 =>
+          match getEsc c2 with
+          | none => none
+          | some (hi, c3) => classLoop f c3 r (nrange + 1) (m || (decide (lo ≤ r) && decide (r ≤ hi)))
+        | _ => classLoop f c1 r (nrange + 1) (m || lo == r)
+
+/-- `matchChunk`: `none` = ErrBadPattern, `some none` = no match, `some (some rest)` = matched -/
+def matchChunkF : Nat → Bytes → Bytes → Bool → Option (Option Bytes)
+  | 0, _, _, _ => none
+  | _ + 1, [], s, failed => some (if failed then none else some s)
+  | f + 1, c :: ch, s, failed0 =>
+    let failed := failed0 || s.isEmpty
+    if c == 91 then
+      let r := if failed then 0 else (decodeRune s).1
+      let s' := if failed then s else s.drop (decodeRune s).2
+      let neg := ch.head? == some 94
+      let ch1 := if neg then ch.drop 1 else ch
+      match classLoop (ch1.length + 1) ch1 r 0 false with
+      | none => none
+      | some (m, ch2) => matchChunkF f ch2 s' (failed || m == neg)
+    else if c == 63 then
+      match s, failed with
+      | d :: _, false => matchChunkF f ch (s.drop (runeLen s)) (d == 47)
+      | _, _ => matchChunkF f ch s true
+    else
+      let lit (c : UInt8) (ch : Bytes) : Option (Option Bytes) :=
+        match s, failed with
+        | d :: t, false => matchChunkF f ch t (c != d)
+        | _, _ => matchChunkF f ch s true
+      if c == 92 then
+        match ch with
+        | [] => none
+        | c2 :: ch' => lit c2 ch'
+      else lit c ch
+
+def matchChunk (chunk s : Bytes) : Option (Option Bytes) := matchChunkF (chunk.length + 1) chunk s false
+
+/-- the `if star { for i := 0; … }` loop: `name` is `name[i:]` -/
+def starLoop (chunk : Bytes) (lastChunk : Bool) : Bytes → Option (Option Bytes)
+  | [] => some none
+  | c :: tl =>
+    if c == 47 then some none
+    else match matchChunk chunk tl with
+      | none => none
+      | some (some t) => if lastChunk && !t.isEmpty then starLoop chunk lastChunk tl else some (some t)
+      | some none => starLoop chunk lastChunk tl
+
+/-- the trailing syntax check of the remaining pattern -/
+def restValid : Nat → Bytes → Bool
+  | 0, _ => true
+  | _ + 1, [] => true
+  | f + 1, pattern =>
+    let p1 := (dropStars pattern).2
+    let i := scanLen false p1
+    (matchChunk (p1.take i) []).isSome && restValid f (p1.drop i)
+
+/-- `path.Match(pattern, name)`: `none` = ErrBadPattern -/
+def pathMatchF : Nat → Bytes → Bytes → Option Bool
+  | 0, _, _ => none
+  | _ + 1, [], name => some name.isEmpty
+  | f + 1, pattern, name =>
+    let (star, p1) := dropStars pattern
+    let i := scanLen false p1
+    let chunk := p1.take i
+    let rest := p1.drop i
+    if star && chunk.isEmpty then some (!name.contains 47)
+    else
+      let fallthru (_ : Unit) : Option Bool := if restValid (rest.length + 1) rest then some false else none
+      let tryStar (_ : Unit) : Option Bool :=
+        if star then
+          match starLoop chunk rest.isEmpty name with
+          | none => none
+          | some (some t) => pathMatchF f rest t
+          | some none => fallthru ()
+        else fallthru ()
+      match matchChunk chunk name with
+      | none => none
+      | some (some t) => if t.isEmpty || !rest.isEmpty then pathMatchF f rest t else tryStar ()
+      | some none => tryStar ()
+
+def pathMatch (pattern name : Bytes) : Option Bool := pathMatchF (pattern.length + 1) pattern name
+
+/-- `matched, err := path.Match(pattern, name); err == nil && matched` -/
+def globMatch (pattern name : Bytes) : Bool := pathMatch pattern name == some true
 
 /-- `matchPatterns` -/
 def matchPatterns (patterns : List Bytes) (topic : Bytes) : Bool :=
